@@ -809,6 +809,11 @@ class Interp:
             return self.call_method(v, "__getitem__", [idx], {}, node)
         if isinstance(idx, slice) and isinstance(v, (list, tuple, str, bytes)):
             return v[idx]
+        if isinstance(v, (bytes, bytearray)) and isinstance(idx, int):
+            try:
+                return v[idx]
+            except IndexError:
+                raise RaiseEx("IndexError", node)
         if isinstance(v, AIter):
             raise RaiseEx("TypeError", node)  # iterators are not subscriptable
         if isinstance(v, RepList) and isinstance(idx, int):
@@ -1292,6 +1297,16 @@ class Interp:
             args = [self.iterate(a, node) if (isinstance(a, AObj) and a.cls is not None and (self.repo.find_method(a.cls, "__getitem__") or self.repo.find_method(a.cls, "__iter__"))) else a for a in args]
         if name == "object.__init__":
             return None
+        if name == "print":
+            return None
+        if name in ("ext:binascii.b2a_hex", "b2a_hex") and args and isinstance(args[0], (bytes, bytearray)):
+            import binascii as _b
+            return _b.b2a_hex(args[0])
+        if name == "int" and len(args) == 2 and isinstance(args[0], (str, bytes)) and isinstance(args[1], int):
+            try:
+                return int(args[0], args[1])
+            except ValueError:
+                raise RaiseEx("ValueError", node)
         if name in ("ext:copy.deepcopy", "ext:copy.copy", "deepcopy") and args:
             deep = not name.endswith(".copy")
 
@@ -1472,7 +1487,9 @@ class Interp:
             if kn is None:
                 raise CannotDecide("isinstance against %r" % (k,))
             kn = kn.split(".")[-1]
-            if kn in ("string_types", "str", "text_type", "basestring"):
+            if kn in ("binary_type", "bytes", "bytearray"):
+                res.append(isinstance(v, (bytes, bytearray)) if not isinstance(v, Opaque) else None)
+            elif kn in ("string_types", "str", "text_type", "basestring"):
                 res.append(isinstance(v, (str, Ch, AbsStr)) if not isinstance(v, Opaque) else None)
             elif kn in ("list", "tuple", "dict", "int", "float", "bool"):
                 pyt = {"list": list, "tuple": tuple, "dict": dict, "int": int, "float": float, "bool": bool}[kn]
